@@ -189,6 +189,19 @@ def cat [Inhabited α] (ts : List (T α)) (d : Nat) : T α :=
    fun c => let (i, o) := locate sizes (c.getD d 0)
             ((ts[i]?).map (·.get (c.set d o))).getD default⟩
 
+/-- `torch.gather(t, d, index)`: the result has the index's shape; `out[c] = t[c with c[d] := index[c]]` -/
+def gather (d : Nat) (index : T Nat) (t : T α) : T α :=
+  ⟨index.shape, fun c => t.get (c.set d (index.get c))⟩
+
+/-- coordinates (row-major) at which a boolean mask is true -/
+def maskSel (mask : T Bool) : List (List Nat) := (coords mask.shape).filter mask.get
+
+/-- `t[mask]` / `torch.masked_select` semantics for a boolean mask over the leading `mask.rank` dims: the selected blocks, in
+row-major order of the mask -/
+def maskedSelect {β : Type} (mask : T Bool) (t : T β) : T β :=
+  ⟨(maskSel mask).length :: t.shape.drop mask.shape.length,
+   fun c => t.get (((maskSel mask)[c.headD 0]?).getD [] ++ c.tail)⟩
+
 end T
 
 /-! ### split sizes (torch.split / torch.chunk) -/
@@ -332,6 +345,15 @@ def chunk (chunks : Int) (d : Int) (t : T α) : Except Err (List (T α)) :=
 /-- shape of `torch.stack` of `k` tensors of shape `s` along (possibly negative) `d`; `none` = torch raises -/
 def stackShape (k : Nat) (d : Int) (s : Shape) : Option Shape :=
   if k = 0 then none else (normDim (s.length + 1) d).map (fun i => s.insertIdx i k)
+
+/-- `torch.gather` with torch's own checks (skipped for an empty index): same rank, the index not larger than the input outside `d`,
+every index value in range -/
+def gather {α : Type} (d : Nat) (index : T Nat) (t : T α) : Except Err (T α) :=
+  if prod index.shape = 0 then .ok (T.gather d index t)      -- an empty index: torch returns an empty result without any check
+  else if index.shape.length ≠ t.shape.length then .error .runtime
+  else if (List.range t.shape.length).any (fun k => k ≠ d ∧ index.shape.getD k 0 > t.shape.getD k 0) then .error .runtime
+  else if (coords index.shape).any (fun c => index.get c ≥ t.shape.getD d 0) then .error .runtime
+  else .ok (T.gather d index t)
 
 end Torch
 
